@@ -102,7 +102,7 @@ def _analyze_no_blank_line(self, lToi):
 
         dAction = {}
         dAction["action"] = "Remove"
-        dAction["start"] = iSearch
+        dAction["start"] = find_carriage_return(iSearch, lTokens)
         for iToken, oToken in enumerate(lTokens[iSearch:]):
             if isinstance(oToken, parser.carriage_return):
                 if not isinstance(lTokens[iSearch + iToken + 1], parser.blank_line):
